@@ -118,6 +118,20 @@ def run(ctx, R):
                     # the arm that keeps the limit in power: `inner <= new`
                     bl = {y["res"]["local"] for y in walk(g["b"]) if y["k"] == "Path" and "local" in y.get("res", {})}
                     guarded = "limit" in bl
+    # ... and the two sides of that comparison are in the same unit: limits on the stack are absolute counts (the user's
+    # limit plus the inferences counted so far), so what is compared with the limit in power is the value that is pushed
+    same_unit = False
+    if len(pushes) == 1 and pushes[0]["args"] and pushes[0]["args"][0]["k"] == "Tup":
+        pv = pushes[0]["args"][0]["elems"][0]
+        for m in walk(ab):
+            if m["k"] == "Match":
+                for arm in m["arms"]:
+                    g = arm.get("guard")
+                    if g is not None and g["k"] == "Binary" and g["op"] in ("Le", "Lt"):
+                        same_unit = pv["k"] == "Path" and g["b"]["k"] == "Path" and pv.get("res") == g["b"].get("res")
+    R.ob("C40:limit-stack:limit-compared-is-the-limit-pushed", same_unit,
+         "CWIL::add_limit compares the limit in power with one value and pushes another: the stack holds absolute counts (limit + inferences counted so far), so comparing the user's "
+         "relative limit lets a looser inner limit be pushed over a tighter outer one", F.where(add))
     R.ob("C40:limit-stack:pushed-only-when-tighter-than-the-limit-in-power", len(pushes) == 1 and guarded,
          "CWIL::add_limit: %d push(es); the arm that leaves the stack alone must be guarded by `limit in power <= new limit` (a larger inner limit must not replace a tighter outer one)" % len(pushes), F.where(add))
     trapping = [x["name"] for x in walk(ab) if x["k"] == "MethodCall" and x["name"] in ("strict_add", "strict_sub", "strict_mul", "unwrap", "expect")]
@@ -176,3 +190,25 @@ def run(ctx, R):
          "install_inference_counter unwraps the narrowing of an arbitrary-precision limit (line %s): call_with_inference_limit(G, 2^130, R) aborts the process" % bad, F.where(ins[0]))
     calls_add = any(x["k"] == "MethodCall" and x["name"] == "add_limit" for x in walk(nb))
     R.ob("C40:installer:limit-goes-to-the-limit-stack", calls_add, "install_inference_counter does not hand the limit to CWIL::add_limit", F.where(ins[0]))
+    # ---- the exceeded condition ends where it is reported ------------------------------------------------------------
+    # increment_call_count stops counting while the flag is up (the unwinding must not be counted). The flag therefore has to
+    # come down when the call whose limit was exceeded reports it, not only when the whole limit stack is empty: otherwise an
+    # exceeded inner limit switches the enclosing limit off for the rest of the outer goal.
+    cands = []
+    for nm in ("inference_limit_exceeded", "remove_inference_counter"):
+        c = [p for p in F.items if re.search(r"system_calls::<impl machine::Machine>::%s$" % nm, p)]
+        if len(c) != 1:
+            raise AnchorLost("Machine::%s" % nm)
+        cands.append(c[0])
+    cands.append(rem)
+    cleared = []
+    for p in cands:
+        for x in walk(F.hir(p)["body"]):
+            if x["k"] == "Assign" and x["lhs"].get("name") == "inference_limit_exceeded" and x["rhs"].get("lit", {}).get("bool") is False:
+                cleared.append(short(p))
+            if x["k"] == "Call" and re.search(r"mem::(take|replace)$", x.get("callee") or "") and any(y.get("name") == "inference_limit_exceeded" for y in walk(x)):
+                cleared.append(short(p))
+    R.ob("C40:counter:exceeded-condition-ends-when-it-is-reported", bool(cleared),
+         "neither the primitive that reports an exceeded limit nor the removal of the limit clears CWIL::inference_limit_exceeded: the flag stays up until the limit stack is empty, and "
+         "while it is up increment_call_count counts nothing — call_with_inference_limit((call_with_inference_limit(inf, 5, _), loop(100000)), 1000, R) answers R = !", F.where(cands[0]))
+
